@@ -27,7 +27,7 @@ type gbEst struct {
 	Order   string `json:"order"` // accept_first, dial_first
 	GapMs   int    `json:"gap_ms"`
 	StartMs int    `json:"start_ms"`
-	Keep    bool   `json:"keep"`  // keep the dialled connection and call it again at the end
+	Keep    bool   `json:"keep"`   // keep the dialled connection and call it again at the end
 	NoPeer  string `json:"nopeer"` // "", "dial_only", "accept_only": the other call never comes
 }
 type gbHold struct {
@@ -62,8 +62,8 @@ type gbEstObs struct {
 	ServedBy  int    `json:"served_by"` // the id the answering server was accepted on; -1 none
 	DialMs    int64  `json:"dial_ms"`
 	Err       string `json:"err,omitempty"`
-	MainOK    bool   `json:"main_ok"`    // main connection works after this establishment
-	KeptOK    bool   `json:"kept_ok"`    // the kept connection still answers correctly at the end
+	MainOK    bool   `json:"main_ok"` // main connection works after this establishment
+	KeptOK    bool   `json:"kept_ok"` // the kept connection still answers correctly at the end
 	Keep      bool   `json:"keep"`
 	StartedMs int64  `json:"started_ms"`
 }
